@@ -54,6 +54,10 @@ pub async fn dispatch(ctx: &Ctx, rep: &mut ShardReport) -> bool {
             crate::conc::run(ctx, rep).await;
             true
         }
+        "C20" => {
+            crate::hl::run(ctx, rep).await;
+            true
+        }
         "C13" => {
             crate::codec::run(ctx, rep).await;
             true
